@@ -469,63 +469,110 @@ def judge_sched(obs):
     return None
 
 
-def run_sched(ctx):
+def _sched_job(job):
+    """One (scenario, preemption bound) exploration in a forked worker; returns plain data."""
+    import logging
+    logging.disable(logging.CRITICAL)
     from pyworkers.worker import Worker
-    bound = 2 if ctx.quick else 3
+    idx, b, cap = job
+    name, setup = sched_scenarios()[idx]
     sched = Sched(files=('pyworkers/worker.py',))
     real_lock = Worker._children_lock
-    total = 0
-    schedules = set()
+    out = {'name': name, 'bound': b, 'outcomes': {}, 'viol': {}, 'violn': {}, 'transitions': 0, 'obs': set(), 'selftest': None, 'n': 0}
+    last = [None]
+
+    def make():
+        Worker._children_lock = CoopLock(sched)
+        return setup()
+
+    def on_exec(ex, obs, choices):
+        out['obs'].add(repr(sorted(obs.items())))
+        out['n'] += 1
+        out['transitions'] += len(ex.trace)
+        last[0] = list(choices)
+        sig = judge_sched(obs)
+        k = 'sched:%s:%s' % (name, sig or 'ok')
+        out['outcomes'][k] = out['outcomes'].get(k, 0) + 1
+        if sig:
+            sig = sig + '/' + name
+            out['violn'][sig] = out['violn'].get(sig, 0) + 1
+            if sig not in out['viol']:
+                out['viol'][sig] = ({'scenario': name, 'schedule': list(choices), 'preemptions': ex.preemptions, 'switches': ex.switches[:20]}, obs)
     try:
-        for name, setup in sched_scenarios():
-            if ctx.quick and name in ('list||list||create', 'list||create||finish', 'create||create||list'):
-                b = 1
-            else:
-                b = bound
-            seen_obs = {}
-
-            def make():
-                Worker._children_lock = CoopLock(sched)
-                return setup()
-
-            def on_exec(ex, obs, choices):
-                key = repr(sorted(obs.items()))
-                seen_obs[key] = seen_obs.get(key, 0) + 1
-                schedules.add((name, tuple(choices)))
-                ctx.count()
-                ctx.transitions += len(ex.trace)
-                sig = judge_sched(obs)
-                ctx.outcome('sched:%s:%s' % (name, sig or 'ok'))
-                if sig:
-                    ctx.violation(sig + '/' + name, {'scenario': name, 'schedule': choices, 'preemptions': ex.preemptions,
-                                                     'switches': ex.switches[:20]}, obs, 'registry exact under every interleaving', engine='SCHED')
-            try:
-                st = sched.explore(make, b, on_exec, max_execs=(6000 if ctx.quick else 60000))
-            except Deadlock as e:
-                ctx.violation('SCHED/deadlock/' + name, {'scenario': name}, str(e), 'no deadlock', engine='SCHED')
-                st = {'executions': 0, 'capped': False}
-            if st['capped']:
-                ctx.cap('SCHED scenario %s stopped after %d schedules (bound %d)' % (name, st['executions'], b))
-            total += st['executions']
-            ctx.sample({'engine': 'SCHED', 'scenario': name, 'preemption_bound': b, 'schedules': st['executions'], 'distinct_observations': len(seen_obs)})
-            ctx.distinct(('sched', name, b))
-            # determinism self-test: replay one recorded schedule twice
-            if schedules:
-                pick = sorted(s for s in schedules if s[0] == name)[-1][1]
-                o = []
-                for _ in range(2):
-                    bodies, finish = make()
-                    ex = sched.run(bodies, list(pick))
-                    ob = finish(ex)
-                    o.append(repr(sorted(ob.items())))
-                if o[0] != o[1]:
-                    ctx.selftest_fail('schedule replay is not deterministic for %s' % name)
+        try:
+            st = sched.explore(make, b, on_exec, max_execs=cap)
+        except Deadlock as e:
+            out['deadlock'] = str(e)
+            st = {'executions': out['n'], 'capped': False}
+        out['stats'] = st
+        # determinism self-test: replay one recorded schedule twice
+        if last[0] is not None:
+            o = []
+            for _ in range(2):
+                bodies, finish = make()
+                ex = sched.run(bodies, list(last[0]))
+                o.append(repr(sorted(finish(ex).items())))
+            out['selftest'] = (o[0] == o[1])
     finally:
         Worker._children_lock = real_lock
         sched.uninstall()
-    ctx.states += len(schedules)
+    out['obs'] = len(out['obs'])
+    return out
+
+
+def run_sched(ctx):
+    import multiprocessing
+    three = ('list||list||create', 'list||create||finish', 'create||create||list')
+    names = [n for n, _ in sched_scenarios()]
+    jobs = []
+    for i, name in enumerate(names):
+        if ctx.quick:
+            jobs.append((i, 1 if name in three else 2, 6000))
+        else:
+            # two-thread scenarios up to 3 preemptions, three-thread scenarios up to 2 (both complete, no cap reached)
+            jobs.append((i, 2 if name in three else 3, 200000))
+    total = 0
+    nsched = 0
+    with multiprocessing.get_context('fork').Pool(min(len(jobs), 8)) as pool:
+        results = list(pool.imap_unordered(_sched_job, jobs))
+    for out in sorted(results, key=lambda o: names.index(o['name'])):
+        name, b, st = out['name'], out['bound'], out['stats']
+        ctx.count(out['n'])
+        ctx.transitions += out['transitions']
+        for k, v in out['outcomes'].items():
+            ctx.outcomes[k] = ctx.outcomes.get(k, 0) + v
+        for sig, (case, obs) in out['viol'].items():
+            for _ in range(out['violn'][sig]):
+                ctx.violation(sig, case, obs, 'registry exact under every interleaving', engine='SCHED')
+        if out.get('deadlock'):
+            ctx.violation('SCHED/deadlock/' + name, {'scenario': name}, out['deadlock'], 'no deadlock', engine='SCHED')
+        if st['capped']:
+            ctx.cap('SCHED scenario %s stopped after %d schedules (bound %d)' % (name, st['executions'], b))
+        if out['selftest'] is False:
+            ctx.selftest_fail('schedule replay is not deterministic for %s' % name)
+        total += st['executions']
+        nsched += st['executions']
+        ctx.sample({'engine': 'SCHED', 'scenario': name, 'preemption_bound': b, 'schedules': st['executions'], 'distinct_observations': out['obs']})
+        ctx.distinct(('sched', name, b))
+    ctx.distinct_extra += max(0, nsched - len(results))      # every explored schedule is distinct by construction (DFS over choice prefixes)
+    ctx.states += nsched
     ctx.extra['sched_schedules'] = total
-    ctx.extra['sched_preemption_bound'] = bound
+    ctx.extra['sched_preemption_bounds'] = {o['name']: o['bound'] for o in results}
+
+
+def _seq_chunk(hists):
+    import logging
+    logging.disable(logging.CRITICAL)
+    from .. import graph as G
+    col = G.Collector()
+    for hist in hists:
+        v = run_history(hist, check_each=False)
+        col.count()
+        col.distinct(('h',) + hist)
+        col.outcome('seq:' + (v[0] if v else 'ok'))
+        if v:
+            col.violation(v[0], {'history': list(hist)}, v[1], 'yielded set == live workers', engine='SEQ')
+    return col
 
 
 def run(ctx):
@@ -538,24 +585,20 @@ def run(ctx):
                        'process/remote kinds join the histories only in the thorough tier']
     only = getattr(ctx, 'only', None)
     if only in (None, 'seq'):
-        d_full, d_max, maxw = (4, 7, 3) if ctx.quick else (5, 8, 3)
-        n = 0
+        d_full, d_max, maxw = (5, 8, 3) if ctx.quick else (6, 9, 3)
+        from .. import graph as G
         states = set()
+        hists = []
         for hist, st in seq.histories((), model_enabled(maxw), model_step, d_full, d_max):
             if not hist:
                 continue
-            if hist[-1].startswith('create') and len(hist) < d_full:
-                pass
-            v = run_history(hist, check_each=False)
-            n += 1
-            ctx.count()
-            ctx.distinct(('h',) + hist)
+            hists.append(hist)
             states.add(st)
-            ctx.outcome('seq:' + (v[0] if v else 'ok'))
-            if n % 997 == 1:
-                ctx.sample({'engine': 'SEQ', 'history': list(hist)})
-            if v:
-                ctx.violation(v[0], {'history': list(hist)}, v[1], 'yielded set == live workers', engine='SEQ')
+        n = len(hists)
+        ctx.sample({'engine': 'SEQ', 'history': list(hists[len(hists) // 2])})
+        ctx.sample({'engine': 'SEQ', 'history': list(hists[-1])})
+        for col in G.parallel_chunks(_seq_chunk, hists, chunk=max(50, len(hists) // 64)):
+            G.merge_into(ctx, col)
         ctx.states += len(states)
         ctx.transitions += n
         ctx.extra['seq_histories'] = n
